@@ -147,6 +147,22 @@ func c17Scenario(kind string, ttl time.Duration, ttlName string, populated bool,
 			r.Data["w"] = w
 			var wg vsync.WaitGroup
 			var clock int
+			// two Loads of the location in flight at the same time: the second first
+			// request must wait for the load in progress, not start its own
+			inFlight, concurrentLoads := 0, 0
+			w.rec.OnLoad = func(ctx *core.Context, loc string) {
+				if loc == "L" {
+					inFlight++
+					if inFlight > 1 {
+						concurrentLoads++
+					}
+				}
+			}
+			w.rec.OnLoaded = func(ctx *core.Context, loc string) {
+				if loc == "L" {
+					inFlight--
+				}
+			}
 			events := make([]*c12event, 0, 8)
 			r.Data["events"] = &events
 			wg.Add(len(progs))
@@ -169,6 +185,7 @@ func c17Scenario(kind string, ttl time.Duration, ttlName string, populated bool,
 			wg.Wait()
 			r.Data["final"] = w.pairs()
 			r.Data["loads"] = w.rec.Loads["L"]
+			r.Data["concurrentLoads"] = concurrentLoads
 			for _, ev := range events {
 				r.Record("T%d.%d=%s", ev.thread+1, ev.idx, ev.result)
 			}
@@ -186,6 +203,9 @@ func c17Scenario(kind string, ttl time.Duration, ttlName string, populated bool,
 			}
 			var vs []*lib.Violation
 			loads, _ := r.Data["loads"].(int)
+			if n, _ := r.Data["concurrentLoads"].(int); n > 0 {
+				vs = append(vs, &lib.Violation{Signature: "C17/" + kind + "/two-loads-of-one-location-in-flight:ttl=" + ttlName, Summary: fmt.Sprintf("%s: a second Storage.Load of the location started while another was still executing (%d times)", name, n)})
+			}
 			if singleLoad && loads != 1 {
 				vs = append(vs, &lib.Violation{Signature: "C17/" + kind + "/concurrent-first-requests-load-the-location-more-than-once", Summary: fmt.Sprintf("%s: Storage.Load was called %d times for the location", name, loads), Expected: 1, Observed: loads})
 			}
@@ -281,6 +301,11 @@ func c17SchedScenarios(tier string) []*lib.SchedScenario {
 			if tier == "thorough" {
 				scs = append(scs, c17Scenario(kind, ttl.d, ttl.n, true, [][]int{{3}, {4}, {1}}, reqs, 2, true))
 			}
+		}
+		// (i') TTL never: overlapping first requests share one load (a later,
+		// non-overlapping request legitimately loads again)
+		for _, progs := range [][][]int{{{3}, {3}}, {{3}, {4}}, {{0}, {3}}, {{0}, {1}}} {
+			scs = append(scs, c17Scenario(kind, sys.Never, "never", true, progs, reqs, bound, false))
 		}
 		// (ii) no stale instance
 		for _, ttl := range []struct {
